@@ -168,6 +168,9 @@ func (c01) Oracle(c Tok, obs Tok) string {
 					// automatically assigned: read it back from the state snapshot
 					pids := cl.st.PMTPIDs
 					pid = pids[len(pids)-1]
+					if reservedPID(pid) {
+						return fmt.Sprintf("call %d: AddElementaryStream assigned PID %#x automatically, the PID of a table: its units cannot be demultiplexed", i, pid)
+					}
 				}
 				streams = append(streams, es{pid, o.es.StreamType})
 			}
